@@ -28,6 +28,7 @@ mod tlv;
 
 mod out;
 mod rng;
+mod suite_classify;
 mod suite_fee;
 mod suite_tlv;
 
@@ -59,6 +60,7 @@ fn main() {
     match suite.as_str() {
         "tlv" => suite_tlv::run(ctx),
         "fee" => suite_fee::run(ctx),
+        "classify" => suite_classify::run(ctx),
         other => { eprintln!("unknown suite {}", other); std::process::exit(2); }
     }
 }
